@@ -903,6 +903,40 @@ func (ex *Exec) mapLookupTerm(g *ssa.Global, mt *types.Map, key *smt.Term, comma
 	ex.W.C.DeclareFun(name+"_ok", []smt.Sort{key.Sort}, smt.Bool)
 	okT := c.App(name+"_ok", smt.Bool, key)
 	val := c.Ite(okT, c.App(name+"_val", vs, key), ex.W.zeroOfSort(vs))
+	if entries, ok := ex.Prog.GlobalMapEntries(g); ok && !c.HasVar(key) && ex.wantsMapContents(g.Name()) {
+		// the literal's entries are constants: the lookup is a finite case analysis (read from the package initialiser)
+		var term func(d *constDesc) *smt.Term
+		term = func(d *constDesc) *smt.Term {
+			if d.cst != nil {
+				return ex.termOf(ex.constVal(d.cst), nil)
+			}
+			if d.fields == nil {
+				return ex.W.Zero(d.t)
+			}
+			dt := ex.W.DT(ex.W.SortOf(d.t))
+			var fs []*smt.Term
+			for _, f := range d.fields {
+				fs = append(fs, term(f))
+			}
+			return c.Construct(dt, fs...)
+		}
+		var hits []*smt.Term
+		v := ex.W.zeroOfSort(vs)
+		for i := len(entries) - 1; i >= 0; i-- {
+			kt, vt := term(entries[i].key), term(entries[i].val)
+			if kt == nil || vt == nil || kt.Sort != key.Sort || vt.Sort != vs {
+				hits = nil
+				break
+			}
+			eq := c.Eq(key, kt)
+			hits = append(hits, eq)
+			v = c.Ite(eq, vt, v)
+		}
+		if hits != nil {
+			okT, val = c.Or(hits...), v
+			ex.note(ex.Abstr, "const-map-contents:"+g.Name())
+		}
+	}
 	ex.note(ex.Abstr, "const-map-lookup:"+g.Name())
 	if commaOk {
 		return Val{T: resT, Tup: []Val{{T: mt.Elem(), Tm: val}, {T: types.Typ[types.Bool], Tm: okT}}}
@@ -930,4 +964,18 @@ func blockReaches(a, b *ssa.BasicBlock) bool {
 		return false
 	}
 	return walk(a)
+}
+
+// wantsMapContents: the function under verification asked (clause `mapcontents`) for lookups in this map to be
+// expanded over the literal's entries; otherwise a lookup stays an uninterpreted function of the key.
+func (ex *Exec) wantsMapContents(name string) bool {
+	if ex.FC == nil {
+		return false
+	}
+	for _, m := range ex.FC.MapContents {
+		if m == "*" || m == name {
+			return true
+		}
+	}
+	return false
 }
